@@ -35,7 +35,10 @@ PROP = {'title': 'Axis-aligned boxes behave as half-open point sets',
          'plus all pairs of non-empty boxes on [-3,3] in the quick tier), same checks as int. For every box of every domain every way '
          'of constructing it ((min,max) and (pos,size) with lvalue, temporary and std::move arguments, init_max, init_dim, '
          'structure_cast, copy/move construction and assignment) is followed by a membership test at every probe point; every '
-         'function is called with lvalues and again with temporaries. Reference: bit mask of the explicit point set of every box; '
+         'function is called with lvalues and again with temporaries. init_max and init_dim (the only entry points that take a user '
+         'callback) are additionally driven, for int, double and heap_int and N=1,2,3, by every script of N pairs over 3 values '
+         '(9^N scripts) through a stateful stream-like callback that records its invocations and returns the k-th pair at its '
+         'k-th invocation, and through callbacks that throw at invocation k=1..N. Reference: bit mask of the explicit point set of every box; '
          'result boxes are looked up by their corners (which must be lattice values exactly) and compared as sets. A pair case is '
          'non-trivial when both boxes are non-empty and they share a boundary coordinate on some axis or overlap partially; a point '
          'case when the box is non-empty and the point is within one step of a face; a single-box case when the box is non-empty; '
@@ -55,6 +58,10 @@ PROP = {'title': 'Axis-aligned boxes behave as half-open point sets',
                  'pos+-v / max-+v with v in {0,0.1,0.25,1}, distance, operator< on (pos,size)) plus the rounding-independent facts '
                  'shrink(b,v) subset of b, stretch(b,v) superset of b, center inside a non-empty box; on the extreme-value tables '
                  '(infinite corners) only the comparison/selection functions are run, NaN and -0.0 corners are not enumerated',
+                 'init_max/init_dim callbacks: the documentation says the function is called for every index, so exactly N '
+                 'invocations with every index exactly once are asserted and axis i must be made of the one pair returned for '
+                 'index i; the (undocumented) ascending order of the indices is only counted as information; a throwing callback '
+                 'must propagate its exception with no further invocation and no leaked heap_int cell',
                  'heap_int: reading a moved-from coordinate is reported as read_of_moved_from_scalar; the state of a moved-from box or '
                  'vector itself is not asserted',
                  'extend_bounding_box(box,point) is not in the statement; it is checked against the closed-hull reading that its '
